@@ -12,7 +12,7 @@
 (* The contract is written from the property text / RFC 9110 section 12 / the class docs.    *)
 (* The second half (Impl..)is shaped like the code: stable sort by (specificity, q)          *)
 (* descending, first-match lookup, the best_match loop, the three-stage language fallback.   *)
-EXTENDS Naturals, Sequences, FiniteSets, Bytes
+EXTENDS Naturals, Sequences, FiniteSets, Bytes, TLC
 
 COMMA == 44
 SEMI == 59
@@ -39,9 +39,12 @@ Trim(s) == RTrim(LTrim(s))
 
 IndexOf(s, c) == FindFrom(s, <<c>>, 1)
 
-RECURSIVE Split(_, _)
-Split(s, c) == LET p == IndexOf(s, c) IN
-               IF p = 0 THEN <<s>> ELSE <<Take(s, p - 1)>> \o Split(Drop(s, p), c)
+\* split on a code point (segments between the occurrences of c, in order)
+Split(s, c) == LET P == {i \in 1..Len(s) : s[i] = c}
+                   Rank(p) == Cardinality({d \in P : d <= p})
+                   At(k) == IF k = 0 THEN 0 ELSE IF k > Cardinality(P) THEN Len(s) + 1 ELSE CHOOSE p \in P : Rank(p) = k
+               IN IF P = {} THEN <<s>>
+                  ELSE [k \in 1..(Cardinality(P) + 1) |-> SubSeq(s, At(k - 1) + 1, At(k) - 1)]
 
 RECURSIVE Num(_)
 Num(ds) == IF ds = <<>> THEN 0 ELSE 10 * Num(SubSeq(ds, 1, Len(ds) - 1)) + (ds[Len(ds)] - 48)
@@ -108,17 +111,17 @@ ParseItem(txt) ==
 ParseAll(h) == LET els == Split(h, COMMA) IN [i \in 1..Len(els) |-> ParseItem(Trim(els[i]))]
 
 \* the claimed input domain of header texts (see the driver: everything it generates is inside)
-HeaderInDomain(f, h) ==
-  LET ps == ParseAll(h) IN
+InDomainP(f, h, ps) ==
   /\ h # <<>>
   /\ \A i \in 1..Len(ps) : /\ ps[i].wf /\ ps[i].q # QOutside
                            /\ (f # "mime" => ps[i].params = <<>>)
                            /\ (f = "mime" => Len(Split(ps[i].main, SLASH)) <= 2)
+HeaderInDomain(f, h) == InDomainP(f, h, ParseAll(h))
 
 \* the valid items in the client's order
-Valid(h) == LET ps == ParseAll(h) IN
-            SelectSeq([i \in 1..Len(ps) |-> [main |-> ps[i].main, params |-> ps[i].params, q |-> ps[i].q]],
-                      LAMBDA it : it.q # QIgnored)
+ValidP(ps) == SelectSeq([i \in 1..Len(ps) |-> [main |-> ps[i].main, params |-> ps[i].params, q |-> ps[i].q]],
+                        LAMBDA it : it.q # QIgnored)
+Valid(h) == ValidP(ParseAll(h))
 
 \* an item as the code exposes it ("main; p=1; r=2", no q) -> [main, params]
 ParseValue(txt) == LET p == ParseItem(txt) IN [main |-> p.main, params |-> p.params]
@@ -157,111 +160,130 @@ OfferInDomain(f, o) ==
   /\ IF f = "mime" THEN LET p == ParseItem(o) IN p.wf /\ p.q = 1000 /\ MimeOffer(o).ok
      ELSE \A k \in 1..Len(o) : MainChar(o[k]) /\ o[k] # SLASH /\ o[k] # STAR
 
-\* does the client's range `it` match the server's offer `o` (text)?
-Matches(f, it, o) ==
-  CASE f = "accept"   -> it.main = STARS \/ Lower(it.main) = Lower(o)
-    [] f = "language" -> it.main = STARS \/ NormLang(it.main) = NormLang(o)
-    [] f = "charset"  -> it.main = STARS \/ Canon(it.main) = Canon(o)
-    [] f = "mime"     -> MimeMatches(MimeOf(it.main, it.params), MimeOffer(o))
+\* prepared forms (computed once per item / offer): what matching and ranking look at
+PrepItem(f, it) ==
+  [q    |-> it.q,
+   star |-> it.main = STARS,
+   nf   |-> CASE f = "accept" -> Lower(it.main) [] f = "language" -> NormLang(it.main)
+              [] f = "charset" -> Canon(it.main) [] f = "mime" -> MimeOf(it.main, it.params),
+   spec |-> IF f = "mime"       \* specificity: compared lexicographically; a wildcard component counts 0
+            THEN LET p == Split(it.main, SLASH) IN
+                 [i \in 1..Len(p) |-> IF p[i] = STARS THEN 0 ELSE 1] \o [i \in 1..Len(it.params) |-> 1]
+            ELSE <<IF it.main = STARS THEN 0 ELSE 1>>]
+PrepOffer(f, o) == CASE f = "accept" -> Lower(o) [] f = "language" -> NormLang(o)
+                     [] f = "charset" -> Canon(o) [] f = "mime" -> MimeOffer(o)
+PrepItems(f, V) == [i \in 1..Len(V) |-> PrepItem(f, V[i])]
+PrepOffers(f, offers) == [k \in 1..Len(offers) |-> PrepOffer(f, offers[k])]
 
-\* specificity: a sequence compared lexicographically; a wildcard component counts 0
-SpecOf(f, it) ==
-  IF f = "mime"
-  THEN LET p == Split(it.main, SLASH) IN
-       [i \in 1..Len(p) |-> IF p[i] = STARS THEN 0 ELSE 1] \o [i \in 1..Len(it.params) |-> 1]
-  ELSE <<IF it.main = STARS THEN 0 ELSE 1>>
+\* does the client's range (prepared) match the server's offer (prepared)?
+MatchesP(f, pi, po) == IF f = "mime" THEN MimeMatches(pi.nf, po) ELSE pi.star \/ pi.nf = po
+Matches(f, it, o) == MatchesP(f, PrepItem(f, it), PrepOffer(f, o))
+SpecOf(f, it) == PrepItem(f, it).spec
 
 (***************************************************************************)
 (* Contract                                                                *)
 (***************************************************************************)
-MatchSet(f, V, o) == {i \in 1..Len(V) : Matches(f, V[i], o)}
-\* the most specific ranges among those that match
-TopSet(f, V, o) == LET M == MatchSet(f, V, o) IN
-                   {i \in M : \A j \in M : ~LexLess(SpecOf(f, V[i]), SpecOf(f, V[j]))}
-Matched(f, V, o) == MatchSet(f, V, o) # {}
-Quality(f, V, o) == LET T == TopSet(f, V, o) IN
-                    IF T = {} THEN 0 ELSE CHOOSE q \in {V[i].q : i \in T} : \A i \in T : V[i].q <= q
-DecSpec(f, V, o) == LET T == TopSet(f, V, o) IN IF T = {} THEN <<>> ELSE SpecOf(f, V[CHOOSE i \in T : TRUE])
+\* per offer: m = some range matches; q = the q of the most specific matching range (the
+\* maximum among equally specific ones), 0 if none; ds = the specificity of that range
+SummaryP(f, V, PV, PO) ==
+     [k \in 1..Len(PO) |->
+        LET M == {i \in 1..Len(V) : MatchesP(f, PV[i], PO[k])}
+            T == {i \in M : \A j \in M : ~LexLess(PV[i].spec, PV[j].spec)}
+        IN IF M = {} THEN [m |-> FALSE, q |-> 0, ds |-> <<>>]
+           ELSE [m |-> TRUE,
+                 q |-> CHOOSE q \in {V[i].q : i \in T} : \A i \in T : V[i].q <= q,
+                 ds |-> PV[CHOOSE i \in T : TRUE].spec]]
+Summary(f, V, offers) == SummaryP(f, V, PrepItems(f, V), PrepOffers(f, offers))
+Quality(f, V, o) == Summary(f, V, <<o>>)[1].q
+Matched(f, V, o) == Summary(f, V, <<o>>)[1].m
 
-Candidates(f, V, offers) == {k \in 1..Len(offers) : Matched(f, V, offers[k]) /\ Quality(f, V, offers[k]) > 0}
-BestQ(f, V, offers) == LET C == Candidates(f, V, offers) IN
-                       {k \in C : \A j \in C : Quality(f, V, offers[j]) <= Quality(f, V, offers[k])}
-BestS(f, V, offers) == LET B == BestQ(f, V, offers) IN
-                       {k \in B : \A j \in B : ~LexLess(DecSpec(f, V, offers[k]), DecSpec(f, V, offers[j]))}
-\* index of the chosen offer, 0 = none acceptable
-BestIdx(f, V, offers) == LET B == BestS(f, V, offers) IN
-                         IF B = {} THEN 0 ELSE CHOOSE k \in B : \A j \in B : k <= j
+\* the choice from a summary: maximal positive quality, then the more specific deciding
+\* range, then offer order; 0 = no acceptable offer
+BestOfSummary(sm) ==
+  LET C  == {k \in DOMAIN sm : sm[k].m /\ sm[k].q > 0}
+      BQ == {k \in C : \A j \in C : sm[j].q <= sm[k].q}
+      BS == {k \in BQ : \A j \in BQ : ~LexLess(sm[k].ds, sm[j].ds)}
+  IN IF BS = {} THEN 0 ELSE CHOOSE k \in BS : \A j \in BS : k <= j
+BestIdx(f, V, offers) == BestOfSummary(Summary(f, V, offers))
 
 \* LanguageAccept: exact stage, then the client's ranges cut to their primary tag, then the
 \* offers cut to their primary tag.  strict: an offer that some range matches exactly (it then
 \* has quality 0 when the exact stage chose nothing) is never chosen by a fallback.
-Eligible(V, offers, strict) == SelectSeq([k \in 1..Len(offers) |-> k],
-                                         LAMBDA k : ~strict \/ ~Matched("language", V, offers[k]))
-LangStage(V, offers, strict) ==
-  LET b1 == BestIdx("language", V, offers)
-      E  == Eligible(V, offers, strict)
+LangStageS(V, offers, sm, strict) ==
+  LET b1 == BestOfSummary(sm)
+      E  == SelectSeq([k \in 1..Len(offers) |-> k], LAMBDA k : ~strict \/ ~sm[k].m)
       oe == [k \in 1..Len(E) |-> offers[E[k]]]
       V2 == [i \in 1..Len(V) |-> [main |-> Primary(V[i].main), params |-> V[i].params, q |-> V[i].q]]
       b2 == BestIdx("accept", V2, oe)
       b3 == BestIdx("language", V, [k \in 1..Len(oe) |-> Primary(oe[k])])
   IN IF b1 > 0 THEN [idx |-> b1, stage |-> 1]
+     ELSE IF E = <<>> THEN [idx |-> 0, stage |-> 0]
      ELSE IF b2 > 0 THEN [idx |-> E[b2], stage |-> 2]
      ELSE IF b3 > 0 THEN [idx |-> E[b3], stage |-> 3]
      ELSE [idx |-> 0, stage |-> 0]
+LangStage(V, offers, strict) == LangStageS(V, offers, Summary("language", V, offers), strict)
 LangBest(V, offers, strict) == LangStage(V, offers, strict).idx
 
-Choice(f, V, offers) == IF f = "language" THEN LangBest(V, offers, TRUE) ELSE BestIdx(f, V, offers)
+ChoiceS(f, V, offers, sm) == IF f = "language" THEN LangStageS(V, offers, sm, TRUE).idx ELSE BestOfSummary(sm)
+Choice(f, V, offers) == ChoiceS(f, V, offers, Summary(f, V, offers))
 
 (***************************************************************************)
 (* Implementation-shaped model                                             *)
 (***************************************************************************)
-KeyLess(f, a, b) == LET sa == SpecOf(f, a) sb == SpecOf(f, b) IN
-                    LexLess(sa, sb) \/ (sa = sb /\ a.q < b.q)
+\* the implementation-shaped operators work on prepared items (PrepItems) and prepared offers
+KeyLess(a, b) == LexLess(a.spec, b.spec) \/ (a.spec = b.spec /\ a.q < b.q)
 \* sorted(values, key=(specificity, q), reverse=True): stable, descending
-RECURSIVE InsertDesc(_, _, _)
-InsertDesc(f, sorted, x) ==
+RECURSIVE InsertDesc(_, _)
+InsertDesc(sorted, x) ==
   IF sorted = <<>> THEN <<x>>
-  ELSE IF KeyLess(f, Head(sorted), x) THEN <<x>> \o sorted
-  ELSE <<Head(sorted)>> \o InsertDesc(f, Tail(sorted), x)
-RECURSIVE SortDesc(_, _)
-SortDesc(f, V) == IF V = <<>> THEN <<>> ELSE InsertDesc(f, SortDesc(f, SubSeq(V, 1, Len(V) - 1)), V[Len(V)])
+  ELSE IF KeyLess(Head(sorted), x) THEN <<x>> \o sorted
+  ELSE <<Head(sorted)>> \o InsertDesc(Tail(sorted), x)
+RECURSIVE SortDesc(_)
+SortDesc(PV) == IF PV = <<>> THEN <<>> ELSE InsertDesc(SortDesc(SubSeq(PV, 1, Len(PV) - 1)), PV[Len(PV)])
 
 \* _best_single_match on the sorted list: position of the first matching item, 0 if none
 RECURSIVE FirstMatch(_, _, _, _)
-FirstMatch(f, S, o, i) == IF i > Len(S) THEN 0 ELSE IF Matches(f, S[i], o) THEN i ELSE FirstMatch(f, S, o, i + 1)
-ImplQuality(f, S, o) == LET i == FirstMatch(f, S, o, 1) IN IF i = 0 THEN 0 ELSE S[i].q
+FirstMatch(f, S, po, i) == IF i > Len(S) THEN 0 ELSE IF MatchesP(f, S[i], po) THEN i ELSE FirstMatch(f, S, po, i + 1)
+ImplQuality(f, S, po) == LET i == FirstMatch(f, S, po, 1) IN IF i = 0 THEN 0 ELSE S[i].q
 
-\* variant "nospec": the loop without the specificity tie-break (a plausible regression)
+\* the best_match loop; variant "nospec": without the specificity tie-break (a plausible regression)
 RECURSIVE ImplLoop(_, _, _, _, _, _)
-ImplLoop(f, S, offers, k, st, variant) ==
-  IF k > Len(offers) THEN st.res
-  ELSE LET i == FirstMatch(f, S, offers[k], 1) IN
-       IF i = 0 THEN ImplLoop(f, S, offers, k + 1, st, variant)
-       ELSE LET q == S[i].q  sp == SpecOf(f, S[i]) IN
-            IF q <= 0 \/ (st.res > 0 /\ q < st.bq) THEN ImplLoop(f, S, offers, k + 1, st, variant)
+ImplLoop(f, S, PO, k, st, variant) ==
+  IF k > Len(PO) THEN st.res
+  ELSE LET i == FirstMatch(f, S, PO[k], 1) IN
+       IF i = 0 THEN ImplLoop(f, S, PO, k + 1, st, variant)
+       ELSE LET q == S[i].q  sp == S[i].spec IN
+            IF q <= 0 \/ (st.res > 0 /\ q < st.bq) THEN ImplLoop(f, S, PO, k + 1, st, variant)
             ELSE IF st.res = 0 \/ q > st.bq \/ (variant # "nospec" /\ LexLess(st.bs, sp))
-                 THEN ImplLoop(f, S, offers, k + 1, [res |-> k, bq |-> q, bs |-> sp], variant)
-                 ELSE ImplLoop(f, S, offers, k + 1, st, variant)
-ImplBest(f, S, offers, variant) == ImplLoop(f, S, offers, 1, [res |-> 0, bq |-> 0, bs |-> <<>>], variant)
+                 THEN ImplLoop(f, S, PO, k + 1, [res |-> k, bq |-> q, bs |-> sp], variant)
+                 ELSE ImplLoop(f, S, PO, k + 1, st, variant)
+ImplBest(f, S, PO, variant) == ImplLoop(f, S, PO, 1, [res |-> 0, bq |-> 0, bs |-> <<>>], variant)
 
-\* LanguageAccept.best_match; variant "head" = the code before the fixes (fallbacks consider
-\* every offer; the third stage maps back with str.startswith), "fixed" = after.
+\* LanguageAccept.best_match; variant "head" = the code before the fixes (the fallbacks consider
+\* every offer; the third stage maps back with str.startswith), otherwise after the fixes.
 FirstStartsWith(offers, p) == LET H == {k \in 1..Len(offers) : IsPrefixOf(p, offers[k])} IN
-                              IF H = {} THEN 0 ELSE CHOOSE k \in H : \A j \in H : k <= j
+                              CHOOSE k \in H : \A j \in H : k <= j
 ImplLang(V, offers, variant) ==
-  LET S  == SortDesc("language", V)
-      r1 == ImplBest("language", S, offers, variant)
-      E  == Eligible(V, offers, variant # "head")
+  LET S  == SortDesc(PrepItems("language", V))
+      PO == PrepOffers("language", offers)
+      r1 == ImplBest("language", S, PO, variant)
+      E  == SelectSeq([k \in 1..Len(offers) |-> k],
+                      LAMBDA k : variant = "head" \/ FirstMatch("language", S, PO[k], 1) = 0)
       oe == [k \in 1..Len(E) |-> offers[E[k]]]
-      S2 == SortDesc("accept", [i \in 1..Len(S) |-> [main |-> Primary(S[i].main), params |-> S[i].params, q |-> S[i].q]])
-      r2 == ImplBest("accept", S2, oe, variant)
+      \* the fallback list is built from the sorted list and sorted again as a plain Accept
+      VS == LET idx == SortDesc([i \in 1..Len(V) |-> PrepItem("language", V[i]) @@ [pos |-> i]]) IN
+            [i \in 1..Len(V) |-> V[idx[i].pos]]
+      S2 == SortDesc(PrepItems("accept", [i \in 1..Len(VS) |-> [main |-> Primary(VS[i].main), params |-> <<>>, q |-> VS[i].q]]))
+      r2 == ImplBest("accept", S2, PrepOffers("accept", oe), variant)
       fb == [k \in 1..Len(oe) |-> Primary(oe[k])]
-      r3 == ImplBest("language", S, fb, variant)
+      r3 == ImplBest("language", S, PrepOffers("language", fb), variant)
   IN IF r1 > 0 THEN r1
+     ELSE IF E = <<>> THEN 0
      ELSE IF r2 > 0 THEN E[r2]
      ELSE IF r3 > 0 THEN (IF variant = "head" THEN E[FirstStartsWith(oe, fb[r3])] ELSE E[r3])
      ELSE 0
 
 ImplChoice(f, V, offers, variant) ==
-  IF f = "language" THEN ImplLang(V, offers, variant) ELSE ImplBest(f, SortDesc(f, V), offers, variant)
+  IF f = "language" THEN ImplLang(V, offers, variant)
+  ELSE ImplBest(f, SortDesc(PrepItems(f, V)), PrepOffers(f, offers), variant)
 =============================================================================
